@@ -125,7 +125,7 @@ Definition corr_bp (c : bp_case) : bool :=
       && status_eqb st (o_status o) && oplan_eqb sol (o_sol o) && oz_eqb obj (o_obj o)
       && Nat.eqb (o_iters o) 0 && Nat.eqb (o_evals o) cg_iters && Nat.leb (o_nodes o) 1
   | BpTree rb inc, BAns o =>
-      root_agrees r (o_root o) && tree_answer_ok eps_default gap_default rb inc (o_status o) (o_obj o)
+      root_agrees r (o_root o) && tree_answer_ok gap_default rb inc (o_status o) (o_obj o)
   | _, _ => false
   end.
 
